@@ -238,6 +238,8 @@ def drawn_path(font, g):
 
     pen = RecordingPen()
     try:
+        # varLib.build leaves its merging extractor installed on the masters' charstrings
+        _cff_top(font).CharStrings[g].__dict__.pop("outlineExtractor", None)
         font.getGlyphSet()[g].draw(pen)
     except Exception as e:
         raise OutOfDomain("master charstring cannot be drawn (%s)" % type(e).__name__)
